@@ -196,6 +196,8 @@ pub struct CaseStats {
     pub inflated: bool,
     pub hostile_tried: u64,
     pub hostile_accepted: u64,
+    pub withdraw_all_accepted: u64,
+    pub withdraw_all_refused: u64,
     /// strict reading: successes whose health is negative once debts of >= 1 native unit that the program ignores
     /// (fewer than one liability share) are counted; (message, amount) of the first
     pub strict_hits: u64,
@@ -458,6 +460,21 @@ pub fn run_case(c: &PortCase, stats: &mut CaseStats) -> Result<(), (String, Stri
             check_success(&vm, &acct, &format!("{kind}({a})"), stats)?;
         }
     }
+    // the full-withdrawal variant of the same probe (closes the balance; the client omits - or, second form, includes -
+    // the closed bank's observation accounts): whatever is accepted is judged on the real post-state
+    if kind == "withdraw" {
+        for include_closed in [false, true] {
+            let metas = w.risk_metas(&acct, None, if include_closed { None } else { Some(w.banks[probe_bank].key) });
+            let ix = w.ix_withdraw_with(acct, usr.auth, probe_bank, usr.tokens[probe_bank], 0, Some(true), metas);
+            let mut vm = w.vm.clone();
+            if vm.exec(&ix).is_ok() {
+                stats.withdraw_all_accepted += 1;
+                check_success(&vm, &acct, if include_closed { "withdraw_all (closed bank's accounts included)" } else { "withdraw_all" }, stats)?;
+            } else {
+                stats.withdraw_all_refused += 1;
+            }
+        }
+    }
     // hostile presentation of the observation accounts: amounts the program refuses with the honest list are retried
     // with defective lists (none at all; one bank's group dropped; two groups swapped; one group duplicated over
     // another). The program may refuse, or accept if what it saw still justifies it - any acceptance is judged on the
@@ -582,6 +599,8 @@ pub fn run(ctx: &Ctx) -> Report {
                     rep.label(&format!("feature:{f}"));
                 }
                 rep.add_extra("success_side_checks", st.success_checks);
+                rep.add_extra("withdraw_all_probes_accepted", st.withdraw_all_accepted);
+                rep.add_extra("withdraw_all_probes_refused", st.withdraw_all_refused);
                 rep.add_extra("hostile_observation_lists_tried", st.hostile_tried);
                 rep.add_extra("hostile_observation_lists_accepted", st.hostile_accepted);
                 rep.set_max("max_interval_width", st.widths);
